@@ -43,6 +43,15 @@ def _install():
       paranoid._check_factory[k]['CheckECKeySmallDifference'] = c
 
 
+def _drop_tables():
+  """The library keeps its largest baby-step table per curve object for the life of the process (up to ~1 GB
+  per curve after a 120-key batch); dropping them between cases keeps a worker's memory bounded."""
+  from paranoid_crypto.lib import ec_util  # pylint: disable=g-import-not-at-top
+  for c in ec_util.CURVE_FACTORY.values():
+    if c is not None:
+      c._table, c._table_size = {}, 0
+
+
 def _assert_clean(arts, clause, **ctx):
   for i, a in enumerate(arts):
     pos = [n for n, e in art.results(a.test_info).items() if any(r for r, _ in e)]
@@ -116,6 +125,13 @@ def strat_rsa(tier):
 # ---------------------------------------------------------------- EC
 
 def run_ec(desc):
+  try:
+    return _run_ec(desc)
+  finally:
+    _drop_tables()
+
+
+def _run_ec(desc):
   _install()
   mat = Material(desc['m'], 'c07e')
   keys = []
@@ -179,6 +195,13 @@ def strat_ec(tier):
 # ---------------------------------------------------------------- ECDSA
 
 def run_sigs(desc):
+  try:
+    return _run_sigs(desc)
+  finally:
+    _drop_tables()
+
+
+def _run_sigs(desc):
   _install()
   mat = Material(desc['m'], 'c07s')
   sigs = []
@@ -245,7 +268,10 @@ def run_ec_default(desc):
   n = eg.ref(cid).n
   keys = [art.ec_key(cid, *eg.mul_g(cid, 1 + mat.below(n - 1))) for _ in range(desc['count'])]
   keys.append(_copy(keys[0]))   # the same healthy key listed twice
-  ret = libcall(ec_aggregate_checks.CheckECKeySmallDifference().Check, keys)
+  try:
+    ret = libcall(ec_aggregate_checks.CheckECKeySmallDifference().Check, keys)
+  finally:
+    _drop_tables()
   _assert_clean(keys, 'ec-default-maxdiff', n=len(keys))
   if ret is not False:
     raise Violation('ec-default-maxdiff:returned-true', got=repr(ret))
